@@ -329,6 +329,15 @@ def rule_strict_numbers(ctx: Ctx) -> RuleResult:
     for n in folds:
         if "startswith" not in ast.unparse(n.test):
             rr.add(finding("TAINT", p88, n, f"`if {norm(n.test, 50)}` folds any seven-character description to four characters without checking that it is '#rrggbb': 'g#12345' is accepted as 'g#15', 'h000700' as 'h0'", construct="seven-character fold without '#' test"))
+        # the fold throws three of the six digits away: all six have to go through the strict reader first
+        prm = p88.params[0]
+        reads = [c for st in n.body for c in ast.walk(st) if isinstance(c, ast.Call) and isinstance(c.func, ast.Name) and c.func.id == "_int_digits" and c.args and ast.unparse(c.args[0]) == f"{prm}[1:]"]
+        fold_i = next((i for i, st in enumerate(n.body) if isinstance(st, ast.Assign) and any(isinstance(t, ast.Name) and t.id == prm for t in st.targets)), None)
+        read_i = next((i for i, st in enumerate(n.body) if any(c in list(ast.walk(st)) for c in reads)), None)
+        ok = fold_i is not None and read_i is not None and read_i < fold_i
+        rr.inst("88: all six digits validated before the fold", True, {"validated_first": ok})
+        if not ok:
+            rr.add(finding("TAINT", p88, n, f"the seven-character description is folded to `{prm}[0:2] + {prm}[3] + {prm}[5]` before its six digits went through _int_digits({prm}[1:], 16): the three characters that are dropped are never looked at, so '#1x3y5z' is accepted as '#135' at depth 88 (the 256- and true-colour parsers reject it)", construct="seven-character fold before validation"))
     return rr
 
 
@@ -424,6 +433,7 @@ from ..mutants import Mut  # noqa: E402
 
 _C = "urwid/display/common.py"
 MUTANTS = [
+    Mut("color-88-folds-before-validating", "urwid/display/common.py", "_parse_color_88", "            _int_digits(desc[1:], 16)\n            desc = desc[0:2] + desc[3] + desc[5]", "            desc = desc[0:2] + desc[3] + desc[5]", "TAINT|display.common._parse_color_88|seven-character fold before validation"),
     Mut("lookup-midpoint-bankers-rounding", "urwid/display/common.py", "_value_lookup_table", "(values[i] + values[i + 1] + 1) // 2", "round((values[i] + values[i + 1]) / 2)", "TAB|display.common._value_lookup_table"),
     Mut("lookup-midpoint-floor", "urwid/display/common.py", "_value_lookup_table", "(values[i] + values[i + 1] + 1) // 2", "(values[i] + values[i + 1]) // 2", "TAB|display.common._value_lookup_table"),
     Mut("twin-lookup-midpoint-reordered", "urwid/display/common.py", "_value_lookup_table", "(values[i] + values[i + 1] + 1) // 2", "(1 + values[i + 1] + values[i]) // 2", twin=True),
